@@ -135,15 +135,37 @@ func libUnprotect(w []byte, sa *security.IKESAKey, recvI, withHdr bool) (model.M
 		}
 		x = probe.SpareWith(w, tail)
 	}
+	// Where the pre-parsed header comes from (chosen by the datagram's own octets): parsed from the very buffer that is then
+	// handed to DecodeDecrypt; parsed in the receive buffer, of which the datagram handed on is a private copy, and which has
+	// been refilled meanwhile; parsed from the first 28 octets alone (a stream reader). The datagram argument is what counts.
+	hdrMode := 0
+	if len(w) >= 28 {
+		hdrMode = int(w[len(w)/3]^w[27]) % 3
+	}
 	call := func() error {
 		return probe.Try(func() error {
 			var hdr *message.IKEHeader
 			if withHdr {
-				h, e := message.ParseHeader(x)
+				src := x
+				switch hdrMode {
+				case 1:
+					src = append([]byte(nil), x...)
+				case 2:
+					if len(x) >= 28 {
+						src = x[:28:28]
+					}
+				}
+				h, e := message.ParseHeader(src)
 				if e != nil {
 					return fmt.Errorf("ParseHeader: %w", e)
 				}
 				hdr = h
+				if hdrMode == 1 {
+					// the receive buffer now holds the next datagram (same size, other octets)
+					for i := range src {
+						src[i] = src[i]*7 + byte(i) + 0x33
+					}
+				}
 			}
 			var e error
 			dm, e = ike.DecodeDecrypt(x, hdr, sa, bridge.Role(recvI))
